@@ -328,6 +328,22 @@ def wall_scenarios(dim=3, periodic=False, mask=None):
     return out
 
 
+def clustered_scenarios(dim=1, periodic=False, mask=None):
+    """clusters along x (several nearest neighbours on the same side of a generator) - valid, non-degenerate inputs"""
+    out = []
+    a, w = (0.0, 0.0, 0.0), (1.0, 1.25, 0.75)
+    rng = random.Random(99 + dim)
+    for xs in ([0.1, 0.5, 0.55, 0.6, 0.9], [0.05, 0.1, 0.16, 0.8], [0.2, 0.7, 0.74, 0.79, 0.85, 0.95], [0.48, 0.5, 0.53]):
+        gens = []
+        for x in xs:
+            y = w[1] * (0.5 + 0.05 * (rng.random() - 0.5)) if dim >= 2 else 0.0
+            z = w[2] * (0.5 + 0.05 * (rng.random() - 0.5)) if dim >= 3 else 0.0
+            gens.append([x, y, z])
+        m = None if mask is None else (list(mask) + [True] * len(gens))[:len(gens)]
+        out.append({'kind': 'scenario', 'dim': dim, 'periodic': bool(periodic), 'anchor': list(a), 'width': list(w), 'gens': gens, 'mask': m})
+    return out
+
+
 BATTERY_PIDS = ('C03', 'C04', 'C05', 'C06', 'C07', 'C08', 'C12', 'C13', 'C16')
 
 
@@ -338,12 +354,15 @@ def battery(seed=0):
             for n in (1, 2, 3, 4, 5):
                 masks = [None]
                 if n >= 2:
-                    masks += [[(k * 7 + seed) % 3 != 0 for k in range(n)], [k % 2 == 1 for k in range(n)], [k == n - 1 for k in range(n)]]
+                    masks += [[(k * 7 + seed) % 3 != 0 for k in range(n)], [k % 2 == 1 for k in range(n)], [k == n - 1 for k in range(n)],
+                              [k == 0 for k in range(n)], [k < 2 for k in range(n)]]
                 for m in masks:
                     for sd in (seed, seed + 1):
                         out.append(scenario(dim, per, n, m, adjacent=(n - 1, 0) if n >= 2 else None, seed=sd))
             out.extend(wall_scenarios(dim, per))
             out.extend(wall_scenarios(dim, per, mask=[False, True, True]))
+            out.extend(clustered_scenarios(dim, per))
+            out.extend(clustered_scenarios(dim, per, mask=[True, False, True, True, False, True]))
     return out
 
 
